@@ -28,6 +28,9 @@ Alphabet ==
   \cup { Op("RemoveType", t, "", EmptyType(""), NoAttr, NoRel) : t \in TN \cup {"zz"} }
   \cup { Op("AddAttr", t, "", EmptyType(""), [name |-> a, k |-> k, null |-> (k = "int")], NoRel) :
             t \in TN \cup {"zz"}, a \in AN \cup RN \cup {""}, k \in {"string", "int", "invalid"} }
+  \* invalid kinds in every spelling: the zero kind made nullable, and a number beyond the last kind
+  \cup { Op("AddAttr", t, "", EmptyType(""), [name |-> a, k |-> k, null |-> n], NoRel) :
+            t \in TN, a \in AN, k \in {"invalid", "invalid-high"}, n \in BOOLEAN }
   \cup { Op("RemoveAttr", t, a, EmptyType(""), NoAttr, NoRel) : t \in TN \cup {"zz"}, a \in AN \cup {"zz"} }
   \cup { Op("AddRel", p[1], "", EmptyType(""), NoAttr, p[2]) :
             p \in { q \in (TN \cup {"zz"}) \X RelArgs1 : Rich \/ q[2].ft = q[1] \/ q[1] = "zz" } }
